@@ -72,6 +72,11 @@ pub enum Tamper {
     ForgeAuthor { zeros: bool },
     /// a perfectly valid entry of ANOTHER document that exists in the same store
     OtherDocument,
+    /// the identifier names another document (0: one that exists in the same store, 1: one that
+    /// does not, 2: all-zero id) but both signatures are made, over exactly these bytes, with the
+    /// secret of the document under attack and the author's key - what any writer of the
+    /// document can produce; the signatures verify, the namespace does not match
+    OtherIdOwnSigs { other: u8 },
 }
 
 impl Tamper {
@@ -93,6 +98,7 @@ impl Tamper {
             Tamper::CopySig { .. } => "copy-sig".into(),
             Tamper::ForgeAuthor { .. } => "forge-author".into(),
             Tamper::OtherDocument => "other-document".into(),
+            Tamper::OtherIdOwnSigs { .. } => "other-id-own-signatures".into(),
         }
     }
     fn valid(&self) -> bool {
@@ -205,6 +211,15 @@ pub fn forge(victim: &Ent, donor: &Ent, t: &Tamper) -> Option<SignedEntry> {
             e.d = 1;
             return Some(e.signed());
         }
+        Tamper::OtherIdOwnSigs { other } => {
+            let ns2 = match other % 3 {
+                0 => w.doc_id(1),
+                1 => w.foreign_doc.id(),
+                _ => iroh_docs::NamespaceId::from(&[0u8; 32]),
+            };
+            let entry = iroh_docs::sync::Entry::new(iroh_docs::sync::RecordIdentifier::new(ns2, w.author_id(victim.a), &victim.k), victim.record());
+            return Some(SignedEntry::from_entry(entry, &w.docs[victim.d as usize], &w.authors[victim.a as usize]));
+        }
         Tamper::ForeignNamespace => {
             return Some(SignedEntry::from_parts(&w.foreign_doc, &w.authors[victim.a as usize], &victim.k, victim.record()));
         }
@@ -294,6 +309,7 @@ impl Scenario for Forge {
             15 => Tamper::HashEmptyLen,
             16 | 17 => Tamper::Future { delta: *rng.pick(&[-1i64, 0, 1, -1000, 1000, -1, 0]) },
             18 if rng.chance(1, 3) => Tamper::OtherDocument,
+            18 if rng.chance(1, 2) => Tamper::OtherIdOwnSigs { other: rng.below(3) as u8 },
             18 => if rng.chance(1, 2) { Tamper::CopySig { namespace_over_author: rng.chance(1, 2) } } else { Tamper::ForgeAuthor { zeros: rng.chance(1, 3) } },
             _ => if rng.chance(1, 3) { Tamper::ShortId { len: rng.below(64) as u8 } } else if rng.chance(1, 3) { Tamper::FarFuture } else { Tamper::Future { delta: *rng.pick(&[-1i64, 0, 1]) } },
         };
@@ -401,7 +417,7 @@ async fn run(plan: &ForgePlan, cx: &mut Cx) -> Res {
         cx.fault(match &plan.tamper {
             Tamper::Flip { .. } => "corrupt_bit_flip",
             Tamper::SwapSigs | Tamper::TransplantSig { .. } | Tamper::ForeignAuthorSig | Tamper::ForeignNamespaceSig | Tamper::CopySig { .. } | Tamper::ForgeAuthor { .. } => "corrupt_signature",
-            Tamper::ForeignNamespace | Tamper::NonCurve { .. } | Tamper::ShortId { .. } | Tamper::OtherDocument => "corrupt_identifier",
+            Tamper::ForeignNamespace | Tamper::NonCurve { .. } | Tamper::ShortId { .. } | Tamper::OtherDocument | Tamper::OtherIdOwnSigs { .. } => "corrupt_identifier",
             Tamper::LenZeroHash | Tamper::HashEmptyLen => "corrupt_empty_mismatch",
             Tamper::Future { .. } | Tamper::FarFuture => "clock_skew_future_bound",
             Tamper::None => "none",
